@@ -354,6 +354,9 @@ def raw_sample(c, scale=1.0, name="file_a.h5", slice_no=3):
     shape = (c["coils"],) + ((3,) if c["three"] else ()) + (c["h"], c["w"])
     k = (r.randn(*shape) + 1j * r.randn(*shape)).astype(np.complex64)
     k[..., : c["w"] // 5] = 0  # a zero-padded border
+    # coils far from the anatomy receive little signal: gains over four orders of magnitude
+    gains = np.concatenate([[1.0], 10.0 ** (-4.0 * r.rand(c["coils"] - 1))]).astype(np.float32)
+    k = k * gains.reshape((-1,) + (1,) * (k.ndim - 1))
     return {"kspace": k * np.float32(scale), "filename": name, "slice_no": slice_no}
 
 
@@ -476,7 +479,7 @@ def oracles(ctx, deep):
             # configurations the builder rejects (e.g. sensitivity estimation without ACS) are not claimed
             continue
         runs += 1
-        kexp = rng.choice([-8, -3, -1, 1, 2, 5, 8])
+        kexp = rng.choice([-30, -24, -16, -8, -3, -1, 1, 2, 5, 8, 20])  # also magnitudes far from one (raw scanner units)
         creal = rng.choice([0.37, 1.9, 123.4])
         # image-domain zero padding leaves regions without signal, where RSS-estimated maps (and SENSE-type images built on
         # them) are quotients of rounding noise: there only dyadic factors (which commute with every float operation) apply
@@ -533,6 +536,27 @@ def oracles(ctx, deep):
                 want = (c["h"] - 2, c["w"] - 3)
                 if tuple(b["masked_kspace"].shape[-3:-1]) != want:
                     add(Violation("crop-shape", "masked_kspace has spatial shape %s, requested crop %s" % (list(b["masked_kspace"].shape[-3:-1]), list(want)), {"config": short}, {"kind": "crop"}))
+        # the same pipeline object serves every sample of a data set: a later sample of another matrix size must be
+        # treated according to its own size (crop given by the sample's reconstruction size, 3-D volumes of other depth)
+        if not ssl and not c["rescale"] and not c["pad"] and not c["compress"]:
+            try:
+                kw2 = dict(crop="reconstruction_size") if c["crop"] else {}
+                p2 = build_pipeline(c, **kw2)
+                outs2 = []
+                for (dh, dw, nm) in ((0, 0, "file_a.h5"), (4, 2, "file_b.h5"), (2, 6, "file_c.h5")):
+                    c2 = dict(c, h=c["h"] + dh, w=c["w"] + dw)
+                    smp = raw_sample(c2, 1.0, nm, 1)
+                    rs = (c2["h"] - 2, c2["w"] - 3)
+                    if c["crop"]:
+                        smp["reconstruction_size"] = rs + (1,)
+                    o = {str(getattr(k, "value", k)): v for k, v in p2(smp).items()}
+                    want = rs if c["crop"] else (c2["h"], c2["w"])
+                    got = tuple(o["masked_kspace"].shape[-3:-1])
+                    if got != tuple(want):
+                        add(Violation("crop-shape", "a pipeline that has served other samples returns spatial shape %s for a sample whose %s is %s" % (list(got), "reconstruction size" if c["crop"] else "matrix size", list(want)), {"config": short, "sample_shape": [c2["h"], c2["w"]], "earlier_samples": len(outs2)}, {"kind": "crop-per-sample"}))
+                    outs2.append(got)
+            except _errors():  # noqa
+                pass
         # all slices of a file get the same mask; another file may get another one
         try:
             key = "sampling_mask" if not ssl else None
